@@ -68,5 +68,11 @@ def check(run, model, tier):
         run.inst('LOOPS.post-path', f, 'untimed branch selected by `period is None`', len(tests) == 1, 'untimed/timed selector not found', obligation=True)
         loops = g.loop_heads()
         run.inst('LOOPS.post-path', f, 'no loop in %s' % nm, not loops, 'loop in the post method', obligation=True)
+    # quiescence needs the consumer to survive surplus wake-up tokens (racing posters produce them): it ends itself only for the stop item / a stopped fabric
+    run.rule('CONSUMER.keeps-waiting', 'the consumer thread clears its own run flag only for the stop item at the head of the queue or when the fabric is stopped')
+    re_, gre, flag_p, fab_p, q_p, selfn_ = queues.run_event_roles(model, cg)
+    run.touch(re_, gre)
+    n_cl = queues.check_consumer_self_stop(run, 'CONSUMER.keeps-waiting', re_, gre, flag_p, fab_p, selfn_)
+    run.floor('run_event self-stop sites', n_cl, 1)
     run.assume('queue.Queue.put blocks only while the queue is full; qsize()/len() are atomic reads')
     run.assume('fair scheduling (the property\'s own hypothesis)')
